@@ -330,8 +330,8 @@ func newAS923Band(repeaterCompatible bool, dt lorawan.DwellTime, frequencyOffset
 						7: {M: 250, N: 242},
 					},
 				},
-				RegParamRevRP002_1_0_0: map[string]map[int]MaxPayloadSize{
-					latest: map[int]MaxPayloadSize{ // RP002-1.0.0
+				latest: map[string]map[int]MaxPayloadSize{
+					RegParamRevRP002_1_0_0: map[int]MaxPayloadSize{ // RP002-1.0.0
 						0: {M: 59, N: 51},
 						1: {M: 59, N: 51},
 						2: {M: 59, N: 51},
@@ -341,8 +341,6 @@ func newAS923Band(repeaterCompatible bool, dt lorawan.DwellTime, frequencyOffset
 						6: {M: 250, N: 242},
 						7: {M: 250, N: 242},
 					},
-				},
-				latest: map[string]map[int]MaxPayloadSize{
 					latest: map[int]MaxPayloadSize{ // RP002-1.0.1, RP002-1.0.2, RP002-1.0.3
 						0: {M: 59, N: 51},
 						1: {M: 59, N: 51},
